@@ -34,14 +34,32 @@ impl Ep {
     }
 }
 
+impl Acc {
+    fn push(&mut self, sig: String, detail: String, replay: serde_json::Value) {
+        *self.violation_counts.entry(sig.clone()).or_insert(0) += 1;
+        // keep the smallest witness per signature
+        let size = replay["epochs"].as_array().map(|a| a.len()).unwrap_or(0) * 10_000
+            + replay.to_string().len();
+        match self.violations.iter_mut().find(|(s, _, _, _)| *s == sig) {
+            Some(entry) => {
+                if size < entry.3 {
+                    *entry = (sig, detail, replay, size);
+                }
+            }
+            None => self.violations.push((sig, detail, replay, size)),
+        }
+    }
+}
+
 #[derive(Default)]
 struct Acc {
+    violation_counts: BTreeMap<String, u64>,
     histories: u64,
     calls: u64,
     complete_checked: u64,
     reject_checked: u64,
     by_switches: BTreeMap<u64, u64>,
-    violations: Vec<(String, String, serde_json::Value)>,
+    violations: Vec<(String, String, serde_json::Value, usize)>,
     sample: Vec<serde_json::Value>,
 }
 
@@ -178,16 +196,16 @@ fn eval_history(seq: &[Ep], full_positions: bool, acc: &mut Acc) {
                 let tau_res = verify_tau(start_epoch, first.compact, end_epoch, last.compact, TAU);
                 match tau_res {
                     Ok(true) => {}
-                    Ok(false) => acc.violations.push((
+                    Ok(false) => acc.push(
                         "reject-legal/verify_tau-false".to_owned(),
                         "verify_tau returns false for a legal history".to_owned(),
                         describe(true_total as i128),
-                    )),
-                    Err(status) => acc.violations.push((
+                    ),
+                    Err(status) => acc.push(
                         "reject-legal/verify_tau-error".to_owned(),
                         format!("verify_tau returns {} for a legal history", status),
                         describe(true_total as i128),
-                    )),
+                    ),
                 }
                 let res = verify_total_difficulty(
                     start_epoch,
@@ -199,14 +217,14 @@ fn eval_history(seq: &[Ep], full_positions: bool, acc: &mut Acc) {
                     TAU,
                 );
                 if let Err(msg) = res {
-                    acc.violations.push((
+                    acc.push(
                         format!("reject-legal/total-difficulty/{}", classify_err(&msg)),
                         format!(
                             "verify_total_difficulty rejects a legal history: {}",
                             msg.split_whitespace().collect::<Vec<_>>().join(" ")
                         ),
                         describe(true_total as i128),
-                    ));
+                    );
                 }
                 if base != 1000 {
                     continue;
@@ -231,11 +249,11 @@ fn eval_history(seq: &[Ep], full_positions: bool, acc: &mut Acc) {
                         TAU,
                     );
                     if res.is_ok() {
-                        acc.violations.push((
+                        acc.push(
                             format!("accept-illegal/{}", class),
                             format!("verify_total_difficulty accepts an impossible total ({})", class),
                             describe(t),
-                        ));
+                        );
                     }
                 };
                 // decreased total
@@ -323,11 +341,11 @@ fn too_fast_cases(diffs: &[(u64, u32)], acc: &mut Acc) {
                     let desc = json!({"n": n, "start_epoch_difficulty": ea.to_string(), "end_epoch_difficulty": eb.to_string(), "len": len});
                     match verify_tau(start_epoch, ca, end_epoch, cb, TAU) {
                         Ok(false) => {}
-                        other => acc.violations.push((
+                        other => acc.push(
                             "accept-illegal/verify_tau-too-fast".to_owned(),
                             format!("verify_tau = {:?} for an epoch difficulty moving faster than tau^n", other.map_err(|s| s.to_string())),
                             desc.clone(),
-                        )),
+                        ),
                     }
                     // any total at all must be rejected; use the smallest consistent one
                     let total = (len - 1) as u128 * da as u128 + db as u128
@@ -342,11 +360,11 @@ fn too_fast_cases(diffs: &[(u64, u32)], acc: &mut Acc) {
                         TAU,
                     );
                     if res.is_ok() {
-                        acc.violations.push((
+                        acc.push(
                             "accept-illegal/total-too-fast".to_owned(),
                             "verify_total_difficulty accepts an epoch difficulty moving faster than tau^n".to_owned(),
                             desc,
-                        ));
+                        );
                     }
                 }
             }
@@ -411,11 +429,11 @@ fn never_abort(thorough: bool, acc: &mut Acc) {
                         let _ = verify_tau(*a, ca, *b, cb, TAU);
                     });
                     if let Err(p) = r {
-                        acc.violations.push((
+                        acc.push(
                             format!("abort/{}", p.site()),
                             format!("verify_tau: {}", p.describe()),
                             json!({"start_epoch": a.to_string(), "start_compact": ca, "end_epoch": b.to_string(), "end_compact": cb, "ai": ai, "bi": bi}),
-                        ));
+                        );
                     }
                     for (ti, ta) in totals.iter().enumerate() {
                         for (tj, tb) in totals.iter().enumerate() {
@@ -430,11 +448,11 @@ fn never_abort(thorough: bool, acc: &mut Acc) {
                                 let _ = verify_total_difficulty(*a, ca, ta, *b, cb, tb, TAU);
                             });
                             if let Err(p) = r {
-                                acc.violations.push((
+                                acc.push(
                                     format!("abort/{}", p.site()),
                                     format!("verify_total_difficulty: {}", p.describe()),
                                     json!({"start_epoch": a.to_string(), "start_compact": ca, "start_total": format!("{:#x}", ta), "end_epoch": b.to_string(), "end_compact": cb, "end_total": format!("{:#x}", tb)}),
-                                ));
+                                );
                             }
                         }
                     }
@@ -472,27 +490,24 @@ pub(crate) fn run(opts: &Opts, report: &mut Report) {
             let acc_all = &acc_all;
             scope.spawn(move || {
                 let mut acc = Acc::default();
-                // breadth-first by number of switches so the first witness is the shortest
-                let mut frontier: Vec<Vec<Ep>> = vec![vec![*first]];
-                for n in 0..=max_switches {
-                    for seq in &frontier {
-                        eval_history(seq, n <= 3, &mut acc);
+                // iterative deepening: all histories with n switches before any with n+1
+                fn dfs(seq: &mut Vec<Ep>, target: usize, eps: &[Ep], acc: &mut Acc) {
+                    if seq.len() == target {
+                        eval_history(seq, target <= 4, acc);
+                        return;
                     }
-                    if n == max_switches {
-                        break;
-                    }
-                    let mut next = vec![];
-                    for seq in &frontier {
-                        let last = seq[seq.len() - 1];
-                        for e in eps_ref.iter() {
-                            if legal_step(&last, e) {
-                                let mut s = seq.clone();
-                                s.push(*e);
-                                next.push(s);
-                            }
+                    let last = seq[seq.len() - 1];
+                    for e in eps.iter() {
+                        if legal_step(&last, e) {
+                            seq.push(*e);
+                            dfs(seq, target, eps, acc);
+                            seq.pop();
                         }
                     }
-                    frontier = next;
+                }
+                for n in 0..=max_switches {
+                    let mut seq = vec![*first];
+                    dfs(&mut seq, n as usize + 1, eps_ref, &mut acc);
                 }
                 let mut all = acc_all.lock().unwrap();
                 all.histories += acc.histories;
@@ -502,7 +517,12 @@ pub(crate) fn run(opts: &Opts, report: &mut Report) {
                 for (k, v) in acc.by_switches {
                     *all.by_switches.entry(k).or_insert(0) += v;
                 }
-                all.violations.extend(acc.violations);
+                for (sig, detail, replay, _) in acc.violations {
+                    all.push(sig, detail, replay);
+                }
+                for (k, v) in acc.violation_counts {
+                    *all.violation_counts.entry(k).or_insert(0) += v;
+                }
                 if all.sample.len() < 3 {
                     all.sample.extend(acc.sample);
                 }
@@ -513,17 +533,13 @@ pub(crate) fn run(opts: &Opts, report: &mut Report) {
     too_fast_cases(&diffs, &mut acc);
     never_abort(thorough, &mut acc);
 
-    // smallest witness first
-    acc.violations.sort_by_key(|(sig, _, replay)| {
-        (
-            sig.clone(),
-            replay["epochs"].as_array().map(|a| a.len()).unwrap_or(0),
-            replay.to_string().len(),
-        )
-    });
-    for (sig, detail, replay) in acc.violations {
-        report.violation(sig, detail, replay);
+    acc.violations.sort_by_key(|(sig, _, _, size)| (sig.clone(), *size));
+    let counts = acc.violation_counts.clone();
+    for (sig, detail, replay, _) in acc.violations {
+        let n = counts.get(&sig).copied().unwrap_or(1);
+        report.violation(sig, format!("{} [{} enumerated cases fail this way]", detail, n), replay);
     }
+    report.set("failing_cases_by_signature", json!(counts));
     report.set("states", json!(acc.histories));
     report.set("transitions", json!(acc.calls));
     report.set("traces_validated_against_impl", json!(acc.calls));
